@@ -19,11 +19,12 @@ TIERS = {
 
 SURFACE = {
     "sset": ["insert_copy", "insert_move", "emplace", "insert_range", "erase_key", "erase_pos", "erase_range", "clear", "swap", "fswap",
-             "ctor_default", "ctor_range"],
+             "ctor_default", "ctor_range", "copy_assign", "move_assign", "ctor_copy", "ctor_move"],
     "fset": ["insert_copy", "insert_move", "emplace", "insert_hint_copy", "insert_hint_move", "emplace_hint", "insert_range",
              "insert_su_range", "erase_key", "erase_pos", "erase_cpos", "erase_range", "clear", "swap", "fswap", "extract", "replace",
-             "ctor_default", "ctor_range", "ctor_cont", "ctor_su_cont", "ctor_su_range"],
-    "fmset": ["ms_ctor_default", "ms_ctor_cont", "ms_ctor_sorted"],
+             "ctor_default", "ctor_range", "ctor_cont", "ctor_su_cont", "ctor_su_range", "copy_assign", "move_assign", "ctor_copy",
+             "ctor_move", "erase_if_odd", "erase_if_eq"],
+    "fmset": ["ms_ctor_default", "ms_ctor_cont", "ms_ctor_sorted", "copy_assign", "move_assign", "ctor_copy", "ctor_move"],
 }
 
 PROBES = {1: "static_set::equal_range(key_type const&)",
@@ -33,11 +34,11 @@ PROBES = {1: "static_set::equal_range(key_type const&)",
 
 
 def _state_key(t, which):
-    return json.dumps([t["cap"], t["cmp"], t[which]], sort_keys=True)
+    return json.dumps([t["cap"], t["cmp"], t[which], sorted(t["premv" if which == "pre" else "postmv"])], sort_keys=True)
 
 
 def _call(t):
-    return {"op": t["op"], "o": t["o"], "x": t["x"], "post": t["post"]}
+    return {"op": t["op"], "o": t["o"], "x": t["x"], "post": t["post"], "postmv": sorted(t["postmv"])}
 
 
 def probes():
@@ -75,8 +76,9 @@ def model(tier, rep, have):
         rep.add_mc(name, r)
         # every key set within capacity (every pair of them) must have been reached, for both comparators:
         # this is what makes "SortedUnique holds in every reachable state" the inductive step
-        if kind != "fmset" and r["states"] != 2 * nsets * nsets:
-            raise vlib.ModelFailure("Set[%s]: %d states, expected %d (not every pair of key sets reached)" % (kind, r["states"], 2 * nsets * nsets))
+        want = 2 * (nsets * nsets + 2 * nsets)      # + (value, moved-from) and (moved-from, value)
+        if kind != "fmset" and r["states"] != want:
+            raise vlib.ModelFailure("Set[%s]: %d states, expected %d (not every pair of key sets reached)" % (kind, r["states"], want))
         gen = [t for t in r["gen"] if t["op"] != "init"]
         from collections import Counter
         per_op = Counter(t["op"] for t in gen)
@@ -88,8 +90,9 @@ def model(tier, rep, have):
         if kind == "fset" and not have[3]:
             dropped = sum(1 for t in gen if t["op"] == "insert_su_range")
             gen = [t for t in gen if t["op"] != "insert_su_range"]
-        sc, st = vlib.plan_edges(gen, _state_key, lambda n: json.loads(n)[2] == {"a": [], "b": []}, _call,
-                                 follow=lambda t: (t["op"] == "insert_copy" and t["ret"]["n"] == 1) or t["op"] == "ctor_range")
+        sc, st = vlib.plan_edges(gen, _state_key, lambda n: json.loads(n)[2] == {"a": [], "b": []} and not json.loads(n)[3], _call,
+                                 follow=lambda t: t["kind"] == "fmset" or (t["op"] == "insert_copy" and t["ret"]["n"] == 1 and not t["premv"])
+                                 or t["op"] in ("ctor_range", "move_assign", "ms_ctor_sorted"))
         if st["unreachable"]:
             raise vlib.ModelFailure("planner: %d unreachable edges in %s" % (st["unreachable"], name))
         sc = [s[:-1] + [dict(s[-1], last=1)] for s in sc]
